@@ -5,7 +5,7 @@ from ..report import Finding, Run
 from ..sessrules import (M, OUT, SEARCH, Extraction, common_coverage, ext_msg, extends, extraction, fact, is_notice_send,
                          msg_short, NOTICE_ATOM, SASL_ATOM)
 from ..session import SESSION_MOD, desc
-from ..srcmodel import Model
+from ..srcmodel import AnalysisError, Model
 
 CLIENT = f"{SESSION_MOD}.LDAPClient"
 SERVER = f"{SESSION_MOD}.LDAPServer"
@@ -68,6 +68,13 @@ def check(model: Model, run: Run) -> None:
     # every octet sent is received exactly once: the receive loops test the reader itself for "octets left"
     from ..readerrules import lemma_reader_truth
     lemma_reader_truth(model, run)
+    # ... and what is not parsed yet is kept, whole and once, for the next delivery
+    from .c02 import residue_discipline
+    from ..sessrules import SESSION_CLASSES as _SC
+    _rf = model.find_method("sansldap._session.LDAPSession", "receive")
+    if _rf is None:
+        raise AnalysisError("LDAPSession.receive not found")
+    residue_discipline(model, run, ex, _rf)
 
     def sasl_send(flag):
         def f(p, e, o):
